@@ -166,6 +166,70 @@ DsDigest(owner, key, d) ==
   Hash(DsDigestAlg(d), Cat(<<Oct(ToWireAbs(LowerName(owner))), Oct(DnskeyRdata(key))>>))
 
 --------------------------------------------------------------------------
+(* Keys: algorithm numbers, flag bits, sizes and the RSA public key layout *)
+
+\* DNSSEC algorithm numbers (IANA; RFC 8624 3.1).  What the ring backend can
+\* sign with and what verify_signed_data can check with it: a signature made
+\* under algorithm a is a signature *of that algorithm* (RFC 5702 for 8 / 10,
+\* RFC 6605 for 13 / 14, RFC 8080 for 15) - in the symbolic world the
+\* algorithm is part of the key term, so a key whose algorithm number was
+\* changed is another key.
+RsaAlgs    == {1, 5, 7, 8, 10}
+SignAlgs   == {8, 10, 13, 14, 15}
+VerifyAlgs == {5, 7, 8, 10, 13, 14, 15}
+\* an algorithm that is not alg but that a careless dispatch confuses with it
+SiblingAlg(alg) == CASE alg = 8 -> 10 [] alg = 10 -> 8 [] alg = 13 -> 14 [] alg = 14 -> 13
+                     [] alg = 5 -> 7 [] alg = 7 -> 5 [] OTHER -> 13
+
+\* RFC 4034 2.1.1 (bit 7 zone key, bit 15 SEP, bits counted from the most
+\* significant one) and RFC 5011 7 (bit 8 REVOKE)
+IsZoneKey(flags) == (flags \div 256) % 2 = 1
+IsRevoked(flags) == (flags \div 128) % 2 = 1
+IsSep(flags)     == flags % 2 = 1
+
+\* RFC 3110 2: exponent length (one octet 1..255, or a zero octet and two
+\* octets for 256..65535), exponent, modulus; no leading zero octets; both at
+\* most 4096 bits
+RECURSIVE TrimZeros(_)
+TrimZeros(s) == IF s # <<>> /\ Head(s) = 0 THEN TrimZeros(Tail(s)) ELSE s
+RsaEncode(e, n) ==
+  LET e2 == TrimZeros(e)   n2 == TrimZeros(n)
+  IN (IF Len(e2) <= 255 THEN <<Len(e2)>> ELSE <<0>> \o EncU16(Len(e2))) \o e2 \o n2
+RsaHead(pub) ==      \* [ok, len, off]: exponent length and where the exponent starts
+  IF Len(pub) >= 1 /\ pub[1] # 0 THEN [ok |-> TRUE, len |-> pub[1], off |-> 1]
+  ELSE IF Len(pub) >= 3 /\ pub[2] # 0 THEN [ok |-> TRUE, len |-> pub[2] * 256 + pub[3], off |-> 3]
+  ELSE [ok |-> FALSE, len |-> 0, off |-> 0]
+RsaExp(pub) == LET h == RsaHead(pub) IN SubSeq(pub, h.off + 1, h.off + h.len)
+RsaMod(pub) == LET h == RsaHead(pub) IN SubSeq(pub, h.off + h.len + 1, Len(pub))
+RsaWellFormed(pub) ==
+  LET h == RsaHead(pub)
+  IN /\ h.ok /\ Len(pub) > h.off + h.len
+     /\ h.len <= 512 /\ Len(pub) - h.off - h.len <= 512
+     /\ pub[h.off + 1] # 0 /\ pub[h.off + h.len + 1] # 0
+
+\* the size of a well-formed key in bits: RSA - the modulus without leading
+\* zero bits; ECDSA - the curve (RFC 6605 4: two coordinates); EdDSA - the
+\* encoded key (RFC 8080 3)
+BitLen(b) == CHOOSE k \in 1..8 : b \div (2 ^ (k - 1)) = 1
+KeyWellFormed(key) ==
+  CASE key.alg \in RsaAlgs -> RsaWellFormed(key.pub)
+    [] key.alg = 13 -> Len(key.pub) = 64
+    [] key.alg = 14 -> Len(key.pub) = 96
+    [] key.alg = 15 -> Len(key.pub) = 32
+    [] key.alg = 16 -> Len(key.pub) = 57
+    [] OTHER -> FALSE
+KeySize(key) ==
+  IF key.alg \in RsaAlgs
+  THEN LET n == RsaMod(key.pub) IN 8 * (Len(n) - 1) + BitLen(n[1])
+  ELSE IF key.alg \in {13, 14} THEN 4 * Len(key.pub) ELSE 8 * Len(key.pub)
+
+\* the length of a signature (RFC 3110 3: as long as the modulus; RFC 6605 4;
+\* RFC 8080 4)
+SigLen(key) ==
+  CASE key.alg \in RsaAlgs -> Len(RsaMod(key.pub))
+    [] key.alg = 13 -> 64 [] key.alg = 14 -> 96 [] key.alg = 15 -> 64 [] key.alg = 16 -> 114
+
+--------------------------------------------------------------------------
 (* Helpers for transforms / alterations *)
 
 Upper(b) == IF b >= 97 /\ b <= 122 THEN b - 32 ELSE b
